@@ -427,9 +427,31 @@ class Run:
 
     def run_matrix(self):
         rec, plan = self.rec, self.plan
-        fn_name, fmt = plan["fn"], plan["format"]
+        fn_name = plan["fn"]
+        fmts = [plan["format"]]
+        if plan["format"] == "nope":
+            # formats registered in this tree that the static list does not know (a new plugin): same treatment
+            from glotaran.plugin_system.data_io_registration import known_data_formats
+            from glotaran.plugin_system.project_io_registration import known_project_formats
+
+            live = known_data_formats() if SAVE_FNS[fn_name][0] == "data" else known_project_formats()
+            static = DATA_FORMATS if SAVE_FNS[fn_name][0] == "data" else PROJECT_FORMATS
+            extra = [f for f in live if f not in static]
+            for f in extra:
+                EXT_FOR.setdefault(f, f)
+                rec.stat(f"format_outside_static_list:{f}")
+            fmts += extra
+        self._cell_counter = 0
+        for fmt in fmts:
+            out = self.run_matrix_for(fn_name, fmt)
+            if out is not None:
+                return out
+        return self._matrix_out()
+
+    def run_matrix_for(self, fn_name, fmt):
+        rec, plan = self.rec, self.plan
         what = SAVE_FNS[fn_name][1]
-        n = 0
+        n = self._cell_counter
         for state in TARGET_STATES:
             for flag in FLAGS:
                 for fkind in MATRIX_FAULTS:
@@ -506,7 +528,8 @@ class Run:
                         # over-protective refusal (e.g. the tsv plugin re-enters save_parameters without passing
                         # allow_overwrite on): not demanded either way by the property, recorded only
                         rec.stat("refused_although_overwrite_allowed")
-        return self._matrix_out()
+        self._cell_counter = n
+        return None
 
     def _matrix_out(self):
         rec = self.rec
